@@ -80,6 +80,21 @@ func c17un(s string) []byte  { b, _ := hex.DecodeString(s); return b }
 func c17DrawRound(t *rapid.T, r interface{ Read([]byte) (int, error) }, label string) c17Round {
 	rb := func(n int) []byte { b := make([]byte, n); r.Read(b); return b }
 	kind := gen.Pick(t, label+".kind", "newcipher", "newcipher", "newgcm", "derive", "za", "verify", "sign", "sm3")
+	if label == "long-rejections" {
+		kind = "sign-long-rejections"
+		// every goroutine signs with ITS OWN source that is stuck for a long while (B = number of rejected candidates, set by the
+		// runner so that all goroutines together exceed 2^20) before it delivers a good nonce: bookkeeping of rejected candidates
+		// that is shared between calls shows only here
+		d := new(big.Int).SetBytes(rb(40))
+		d.Mod(d, sm2gen.NM2).Add(d, big.NewInt(1))
+		e, k := rb(32), rb(32)
+		k[0] &= 0x7f
+		rr, ss, _, _, err := sm2ref.Sign(d, e, k)
+		if err != nil {
+			return c17DrawRound(t, r, label+"'")
+		}
+		return c17Round{Kind: kind, A: c17hex(gen.Pad32(d)), B: c17hex(e), C: c17hex(k), Want: c17hex(gen.Pad32(rr)) + "|" + c17hex(gen.Pad32(ss)) + "|<nil>"}
+	}
 	switch kind {
 	case "newcipher":
 		// c17Reps fresh keys, one barrier each: constructor caches are hit while they are being filled
@@ -194,6 +209,9 @@ func c17Do(rd c17Round, in [5][]byte, bar *c17Barrier) (got string) {
 	case "sign":
 		r, s, err := sm2.SignHashed(bytes.NewReader(c17un(rd.C)), c17un(rd.A), c17un(rd.B))
 		return fmt.Sprintf("%x|%x|%v", r, s, err)
+	case "sign-long-rejections":
+		r, s, err := sm2.SignHashed(&c17StuckReader{left: int64(32 * (1<<20*5/4/int(bar.n) + 1000)), good: c17un(rd.C)}, c17un(rd.A), c17un(rd.B))
+		return fmt.Sprintf("%x|%x|%v", r, s, err)
 	default:
 		h := sm3.New()
 		h.Write(c17un(rd.A))
@@ -262,6 +280,24 @@ func TestVerif_C17_Bursts(t *testing.T) {
 		}
 		if m := c17Burst(rounds, g); m != "" {
 			vt.Fail(t, rec, "C17:burst:result-differs", "%s", m)
+		}
+	})
+}
+
+// One round in which every goroutine's own entropy source is stuck for so long that the goroutines TOGETHER see more than 2^20
+// rejected candidates while each of them alone stays well below: state about rejected candidates that is shared between calls.
+func TestVerif_C17_LongRejections(t *testing.T) {
+	rec := stats.Get("C17", "long-rejections")
+	rec.Rule("rapid draws key, digest, nonce and a goroutine count 4..10; the goroutines are released together and each signs with its OWN source that delivers 1.25*2^20/goroutines rejected candidates before the good nonce. Oracle: every goroutine gets the reference signature. 1 plan in quick, 3 in thorough; non-trivial: every plan.")
+	t.Cleanup(stats.FlushAll)
+	rapid.Check(t, func(t *rapid.T) {
+		r := gen.Rand(t, "content")
+		rd := c17DrawRound(t, r, "long-rejections")
+		g := gen.Int(t, "goroutines", 4, 10)
+		rec.Case(stats.HashS(rd.A, rd.B, fmt.Sprint(g)), true, fmt.Sprintf("goroutines:%d", g))
+		rec.Sample("long-rejections", map[string]interface{}{"goroutines": g, "rejected_per_goroutine": 1<<20*5/4/g + 1000})
+		if m := c17Burst([]c17Round{rd}, g); m != "" {
+			vt.Fail(t, rec, "C17:long-rejections:result-differs", "%s", m)
 		}
 	})
 }
@@ -340,4 +376,27 @@ func verifTailS(s string, n int) string {
 		return s[len(s)-n:]
 	}
 	return s
+}
+
+// c17StuckReader delivers 0xFF bytes (candidates >= n) for a while, then the good nonce, then zeros.
+type c17StuckReader struct {
+	left int64
+	good []byte
+	pos  int
+}
+
+func (r *c17StuckReader) Read(p []byte) (int, error) {
+	for i := range p {
+		switch {
+		case r.left > 0:
+			p[i] = 0xff
+			r.left--
+		case r.pos < len(r.good):
+			p[i] = r.good[r.pos]
+			r.pos++
+		default:
+			p[i] = 0
+		}
+	}
+	return len(p), nil
 }
